@@ -1,9 +1,9 @@
 package selftest
 
 import (
-	"os"
 	"fmt"
 	"math/rand"
+	"os"
 	"strings"
 	"testing"
 
